@@ -6,7 +6,7 @@ CONSTANTS Tier, Part   \* Tier: "q" | "t"; Part selects the type partition ("all
 
 Types == {"x509", "sha256", "extern", "sha1", "unknown"}
 PTypes == IF Part = "all" THEN Types ELSE {Part}
-SigSizes == {0, 15, 16, 17, 47, 48, 49, 64, HUGE}
+SigSizes == {0, 15, 16, 17, 24, 47, 48, 49, 64, 96, HUGE}      \* 24 x 2 and 96 x 1 fill a body that is a multiple of 48 with another SignatureSize
 Counts == {0, 1, 2}
 Delta == {"ok", "minus1", "plus1", "lt28", "zero", "huge", "onesig_more", "onesig_less"}
 Claim(d, honest, ss) == CASE d = "ok" -> honest [] d = "minus1" -> honest - 1 [] d = "plus1" -> honest + 1
